@@ -650,6 +650,7 @@ def run_property(modname, tier='quick', seed=0, rebaseline=False, only=None, can
     # ---- canaries (must-fail mutants) -----------------------------------------------------------------------------
     if not rep.violations and not rep.faults and not only:
         tasks = []
+        gate_keys = set()
         for c in under:
             try:
                 fn = source.load(c.file).function(c.qualname)
@@ -664,6 +665,14 @@ def run_property(modname, tier='quick', seed=0, rebaseline=False, only=None, can
                     ms = [m for m in ms if any(m.desc.startswith(p) for p in recorded)][:len(recorded)]
             elif canary_limit:
                 ms = ms[:canary_limit]
+            # the GATE (vacuity guard) is the same selection in both tiers: the recorded must-kill mutants (or the first three). The thorough tier additionally runs
+            # every other mutant and reports the ratio and the survivors; those include equivalent mutants and mutants of code the contracts say nothing about
+            # (helper branches, messages), so their ratio is information, not a verdict
+            if recorded is None:
+                gate = {id(m) for m in ms[: int(os.environ.get('LIANVC_QUICK_CANARIES', '3'))]}
+            else:
+                gate = {id(m) for m in [m for m in ms if any(m.desc.startswith(p) for p in recorded)][:len(recorded)]}
+            gate_keys.update((c.name, m.desc) for m in ms if id(m) in gate)
             tasks += [(reg, c, m) for m in ms]
         if tasks:
             ct = int(os.environ.get('LIANVC_CANARY_TIMEOUT_MS', '4000'))
@@ -671,11 +680,18 @@ def run_property(modname, tier='quick', seed=0, rebaseline=False, only=None, can
             expected = getattr(module, 'EQUIVALENT_MUTANTS', ())
             surv = [c for c in rep.canaries if c[2] != 'killed' and not any(e in c[1] for e in expected)]
             min_kill = getattr(module, 'MIN_CANARY_KILL_RATIO', 0.0)
-            killed = len([c for c in rep.canaries if c[2] == 'killed'])
-            counted = [c for c in rep.canaries if c[2] == 'killed' or not any(e in c[1] or e in c[0] for e in expected)]
+            gated = [c for c in rep.canaries if (c[0], c[1]) in gate_keys] if tier != 'quick' else list(rep.canaries)
+            if tier != 'quick' and not gated:
+                gated = list(rep.canaries)
+            killed = len([c for c in gated if c[2] == 'killed'])
+            counted = [c for c in gated if c[2] == 'killed' or not any(e in c[1] or e in c[0] for e in expected)]
             if counted and killed / len(counted) < min_kill:
                 rep.undecided.append(f'canary kill ratio {killed}/{len(counted)} below the required {min_kill} '
-                                     f'(survivors: {[c[1][:60] for c in surv][:5]})')
+                                     f'(survivors: {[c[1][:60] for c in gated if c[2] != "killed"][:5]})')
+            if tier != 'quick':
+                allk = len([c for c in rep.canaries if c[2] == 'killed'])
+                rep.notes.append(f'mutants: gate {killed}/{len(counted)} (the recorded must-kill selection, same as the quick tier); all generated mutants {allk}/{len(rep.canaries)} '
+                                 f'killed; survivors outside the gate (equivalent mutants or code the contracts do not constrain): {[c[1][:50] for c in surv if (c[0], c[1]) not in gate_keys][:8]}')
 
     # ---- thorough-only: bounded cross-checks supplied by the module -------------------------------------------------
     for fn in getattr(module, 'BOUNDED_CHECKS', []):
